@@ -320,7 +320,8 @@ Definition classified (ops : list op) (o : op) : bool := simple_checked ops o ||
    code, not a refusal) - or that calls such an operation, is "tainted": the class theorem is not
    claimed for it in this run; the harness lists it as ops_downgraded and requires that the fault
    oracle exercised it.  An operation whose shape IS produced but is neither in the class nor has
-   its recorded shape still breaks the obligation. *)
+   its recorded shape is "reshaped": the same requirement (named in the evidence, clean oracle run
+   required); see Props/C08.v. *)
 Definition refusal (s : step) : bool :=
   match s with
   | Untranslated w => negb (String.prefix "no such attribute" w)
@@ -341,6 +342,8 @@ Fixpoint tainted_steps (ops : list op) (fuel : nat) (l : list step) : bool :=
   end.
 Definition tainted (ops : list op) (o : op) : bool := tainted_steps ops (S (length ops)) (o_steps o).
 Definition classified_or_downgraded (ops : list op) (o : op) : bool := classified ops o || tainted ops o.
+(* shape produced, but neither in the class nor the recorded one: judged by the oracle only in this run *)
+Definition reshaped (ops : list op) (o : op) : bool := negb (classified ops o) && negb (tainted ops o).
 
 (* an operation must not be in both lists (a recorded shape that has become straight-line
    would otherwise hide behind the oracle-only label) *)
